@@ -120,10 +120,13 @@ class GuesserModel:
         return res
 
 
-def emitted_at(g, L, cap=50000):
+def new_optimizer():
+    return tree.imp('lib_guesser.omen.optimizer').Optimizer(max_length=4)
+
+
+def emitted_at(g, L, cap=50000, optimizer=None):
     MC = tree.imp('lib_guesser.omen.markov_cracker').MarkovCracker
-    Opt = tree.imp('lib_guesser.omen.optimizer').Optimizer
-    mc = MC(g, L, Opt(max_length=4))
+    mc = MC(g, L, optimizer if optimizer is not None else new_optimizer())
     out = []
     while True:
         s = mc.next_guess()
